@@ -439,7 +439,8 @@ def apply_num(eng, st, inp, rt, mode, order, ty):
     try:
         ns.add_fact(ln.sub(w), eng)
         oc = "1" if w == 1 else order
-        name = "rd[%s@%s:%d:%s]" % (base if not isinstance(base, tuple) else "arr", off, w, oc)
+        # a signed read of the same bytes is a different number than the unsigned read: it gets its own symbol ("rds[..]")
+        name = "%s[%s@%s:%d:%s]" % ("rds" if ty.startswith("i") else "rd", base if not isinstance(base, tuple) else "arr", off, w, oc)
         if ty.startswith("f"):
             val = Flt(("sym", name), w * 8)
         else:
